@@ -188,6 +188,21 @@ func (r *propRun) runJob(j Job) {
 			}
 		}
 	}
+	// schedule-dependent counterexamples of sequentially replayed jobs: the free-running native
+	// run may not hit the schedule the engine found; replay the engine's schedule under the gates
+	if j.Replay == "" && j.Fn2 == "" {
+		gatedTried := map[string]int{}
+		for _, c := range batch {
+			class := c.v.Kind + "|" + c.v.ID + "|" + c.v.Known
+			if doneClass[class] || gatedTried[class] >= 2 || len(c.v.W.Trace) == 0 || (c.v.Kind != "assert" && c.v.Kind != "panic") {
+				continue
+			}
+			gatedTried[class]++
+			if ok, nr, _ := r.confirmGated(j, c.v); ok {
+				accept(c.v, nr)
+			}
+		}
+	}
 	for _, v := range single {
 		class := v.Kind + "|" + v.ID + "|" + v.Known
 		if doneClass[class] {
@@ -293,14 +308,14 @@ func tail(s string, n int) string {
 }
 
 func (r *propRun) finish(wall time.Duration) int {
-	os.MkdirAll(filepath.Join(verifDir, "evidence"), 0755)
-	os.MkdirAll(filepath.Join(verifDir, "replays"), 0755)
+	os.MkdirAll(filepath.Join(outDir, "evidence"), 0755)
+	os.MkdirAll(filepath.Join(outDir, "replays"), 0755)
 	code := 0
 	for id, desc := range r.knownHit {
 		fmt.Printf("KNOWN-FINDING: property=%s %s: %s\n", r.prop, id, desc)
 	}
 	for i, sr := range r.confirmed {
-		p := filepath.Join(verifDir, "replays", fmt.Sprintf("%s-%d.json", r.prop, i))
+		p := filepath.Join(outDir, "replays", fmt.Sprintf("%s-%d.json", r.prop, i))
 		b, _ := json.MarshalIndent(sr, "", " ")
 		os.WriteFile(p, b, 0644)
 		fmt.Printf("VIOLATION property=%s replay=%s\n", r.prop, p)
